@@ -13,6 +13,9 @@ CLAIMS = {
     "C17": ("proof",
             "Contracts on Element.from_atomic_number/from_string/from_label/__getitem__/__lt__/__eq__/__hash__ and the vectorised helpers: symbolic atomic number with Python's negative-index semantics, labels symbol+digits+arbitrary suffix as structured strings (for all digit strings and suffixes), ordering axioms for all triples; complete enumeration of the property's finite domains (103 elements x spellings, integers -200..300) by exact evaluation of the real functions.",
             "regex longest-letter-prefix model; str.strip/capitalize over-approximated on the unconstrained suffix; table values are their own reference"),
+    "C12": ("proof",
+            "Contracts on UnitCell.set_lengths_and_angles / set_vectors / volume / to_cartesian / to_fractional / reciprocal quantities / every named constructor: the real source is executed on symbolic lengths and angles (cos, sin, sqrt, arccos as uninterpreted functions with their defining identities) and every clause of the statement (mutual inverses, row norms and angles, det = volume, coordinate round trip, reciprocal lengths and angles, agreement of the two construction routes, constructor parameters in degrees and radians) is discharged for all cells by checked algebraic certificates (rewriting to normal form 0 / cofactors verified with exact arithmetic) or z3/cvc5; _set_cell_type by a frame obligation.",
+            "floats as reals; real-analysis facts cos^2+sin^2=1, sqrt(x)^2=x, arccos(cos x)=x on [0,pi]; numpy.linalg.inv two-sided inverse; domain: positive lengths, angles in (0,pi), positive radicand"),
 }
 
 NA_PENDING = "check not built yet in this session (see DESIGN.md section 8 build order)"
